@@ -69,8 +69,10 @@ def job(spec):
             e = {"a": "inv", "z": c["z"], "scale": a, "offset": b, "tol": 2, "c1": [], "c2": [], "snr1": 0, "snr2": 0, "peak1": 0,
                  "peak2": 0, "itemp1": 0, "itemp2": 0, "unique": False, "kind": c["kind"]}
             try:
-                m1 = MatchedFilter(z, temp_kind=c["kind"], nbins_max=c["mx"], spacing_factor=c["fn"] / c["fd"])
-                m2 = MatchedFilter((a * z + b).astype(np.float32), temp_kind=c["kind"], nbins_max=c["mx"], spacing_factor=c["fn"] / c["fd"])
+                sm = c.get("inv_scale", "iqr")
+                m1 = MatchedFilter(z, temp_kind=c["kind"], nbins_max=c["mx"], spacing_factor=c["fn"] / c["fd"], scale_method=sm)
+                m2 = MatchedFilter((a * z.astype(np.float64) + b).astype(np.float32), temp_kind=c["kind"], nbins_max=c["mx"],
+                                   spacing_factor=c["fn"] / c["fd"], scale_method=sm)
                 c1 = np.asarray(m1.convs, dtype=np.float64)
                 srt = np.sort(c1.ravel())
                 e.update({"c1": _q(m1.convs), "c2": _q(m2.convs), "snr1": int(round(float(m1.snr) * Q)), "snr2": int(round(float(m2.snr) * Q)),
@@ -111,7 +113,9 @@ def run(v) -> None:
             zs = sorted(z)
             iqr_pos = zs[(3 * n) // 4] > zs[n // 4]       # the invariance clause presupposes a non-zero scale estimate
             cases.append({"api": "MatchedFilter", "kind": "boxcar", "z": z, "mx": mx, "fn": fn, "fd": fd,
-                          "inv": rng.choice([(2.0, 5.0), (0.5, -3.0), (4.0, 100.0), (3.0, 0.0), (4.0, 1048576.0), (1.0, 500000.0)]) if iqr_pos else None})   # incl. a baseline >> noise, still exact in float32
+                          "inv": rng.choice([(2.0, 5.0), (0.5, -3.0), (4.0, 100.0), (3.0, 0.0), (4.0, 1048576.0), (1.0, 500000.0),
+                                             (2.0 ** 70, 0.0), (2.0 ** -60, 0.0)]) if iqr_pos else None,   # incl. a baseline >> noise and scalings by 2^70 / 2^-60, all exact in float32
+                          "inv_scale": rng.choice(["iqr", "iqr", "std", "mad"])})
             for kind in ("gaussian", "lorentzian"):
                 if n >= 24:
                     cases.append({"api": "MatchedFilter", "kind": kind, "z": z, "mx": 4, "fn": 2, "fd": 1})
